@@ -140,6 +140,9 @@ def check_C17(rep, known):
     rep.add_tlc(st)
     outs = engine.pool_map('splinem', 'replay', recs)
     engine.process_results(rep, recs, outs, [r'C17\.'], known)
+    import splinem
+    rec = {'sc': {'kind': 'optima'}}
+    engine.process_results(rep, [rec], [{'results': splinem.optima(), 'error': None}], [r'C17\.'], known)
 
 
 def trace_job(rep, known):
